@@ -16,7 +16,7 @@ use serde::{Deserialize, Serialize};
 use crate::driver::{CaseResult, Failure, Run, fail, guard, hash_dbg, ok, scratch_dir};
 use crate::props::c05::{
     Dump, Effects, End, History, Mode, Model, Op, SessionSpec, apply_op, diff_dumps, dump_db, op_strategy, open_db,
-    parse_log, session_strategy,
+    RecSpec, parse_log, record_text, session_strategy, to_record, value_strategy,
 };
 use crate::worker::{Reply, WorkerPool, unesc};
 
@@ -41,6 +41,9 @@ struct Req {
     dir: String,
     mode: Mode,
     cont: Option<Vec<Op>>,
+    /// WalManager-level request: only run `WalRecovery::recover()` on `dir` and return the data records
+    #[serde(default)]
+    recover_only: bool,
 }
 
 #[derive(Debug, Default, Serialize, Deserialize)]
@@ -55,6 +58,9 @@ struct Rep {
     only_cont: Option<Dump>,
     /// dump after continuation, close, reopen
     dump2: Option<Dump>,
+    /// recover_only: canonical texts of the recovered data records
+    #[serde(default)]
+    records: Option<Vec<String>>,
 }
 
 fn close_explicit(db: grafeo_engine::GrafeoDB) -> Result<(), Failure> {
@@ -66,6 +72,16 @@ fn close_explicit(db: grafeo_engine::GrafeoDB) -> Result<(), Failure> {
 
 fn worker_inner(req: &Req, rep: &mut Rep) -> Result<(), Failure> {
     let path = PathBuf::from(&req.dir);
+    if req.recover_only {
+        let r = guard("recover", || grafeo_adapters::storage::wal::WalRecovery::new(&path).recover())?;
+        return match r {
+            Ok(recs) => {
+                rep.records = Some(recs.iter().filter_map(record_text).collect());
+                Ok(())
+            }
+            Err(e) => fail("c06/wal/recover-error", format!("WalRecovery::recover failed: {e}")),
+        };
+    }
     let db = open_db(&path, req.mode).map_err(|f| remap(f, "c06/open-error"))?;
     let d1 = guard("dump", || dump_db(&db))?;
     rep.dump1 = Some(d1.clone());
@@ -527,7 +543,7 @@ fn build_images(rec: &Recording, thorough: bool, want_cont: bool, rot_cont: bool
     }
     // (d) single-bit flips over the whole log (all sessions)
     let bits = full.len() * 8;
-    let budget = if thorough { 8 * 4096 } else { 160 };
+    let budget = if thorough { 4096 } else { 160 };
     let fstride = if bits <= budget { 1 } else { bits.div_ceil(budget) };
     let mut positions: Vec<usize> = (0..bits).step_by(fstride.max(1)).map(|b| if fstride > 1 { b + (b / fstride) % 8.min(fstride) } else { b }).collect();
     // framing fields of every record: one bit in the length prefix and one in the checksum
@@ -571,7 +587,7 @@ pub fn check_crash_case(c: &CrashCase, pool: &WorkerPool, ctr: &Counters, thorou
     let mut any_mix = false;
     for (n, img) in images.iter().enumerate() {
         let d = materialize(root.path(), n, img);
-        let req = Req { dir: d.to_string_lossy().to_string(), mode: rec.crash_mode, cont: img.cont.then(|| c.cont.clone()) };
+        let req = Req { dir: d.to_string_lossy().to_string(), mode: rec.crash_mode, cont: img.cont.then(|| c.cont.clone()), recover_only: false };
         let rep = call_worker(pool, &req, ctr);
         let _ = std::fs::remove_dir_all(&d);
         let rep = rep.map_err(|f| Failure { signature: f.signature, what: format!("[{} image, log {} bytes] {}", img.kind, img.log.len(), f.what) })?;
@@ -627,6 +643,174 @@ fn crash_case_strategy(max_ops: usize, max_cont: usize) -> impl Strategy<Value =
         })
 }
 
+// ------------------------------------------------------------------------------------------------
+// Sub-check `wal_multi_file`: damage in a log that spans several files (WalManager level)
+// ------------------------------------------------------------------------------------------------
+
+#[derive(Debug, Clone, PartialEq, Serialize, Deserialize)]
+pub enum MStep {
+    Log(RecSpec),
+    Commit,
+}
+
+#[derive(Debug, Clone, PartialEq, Serialize, Deserialize)]
+pub enum Damage {
+    /// flip one bit: file selector, bit selector
+    Flip { file: u16, bit: u16 },
+    /// cut the last file to a length
+    CutLast { len: u16 },
+    /// flip one bit of the last non-empty file (strict region: nothing follows the damage in replay order
+    /// except later, empty files)
+    FlipLast { bit: u16 },
+}
+
+#[derive(Debug, Clone, PartialEq, Serialize, Deserialize)]
+pub struct MultiCase {
+    pub max_log_size: u64,
+    pub steps: Vec<MStep>,
+    pub damage: Damage,
+}
+
+fn multi_case_strategy(max_steps: usize) -> impl Strategy<Value = MultiCase> {
+    let rec = prop_oneof![
+        3 => (0u8..8, proptest::collection::vec(0u8..3, 0..=2)).prop_map(|(id, labels)| RecSpec::CreateNode { id, labels }),
+        3 => (0u8..8, 0u8..4, value_strategy()).prop_map(|(id, k, v)| RecSpec::SetNodeProp { id, k, v }),
+        1 => (0u8..8).prop_map(|id| RecSpec::DeleteNode { id }),
+        1 => (0u8..8, 0u8..8, 0u8..8, 0u8..2).prop_map(|(id, src, dst, ty)| RecSpec::CreateEdge { id, src, dst, ty }),
+    ];
+    let step = prop_oneof![5 => rec.prop_map(MStep::Log), 1 => Just(MStep::Commit)];
+    let damage = prop_oneof![
+        2 => (any::<u16>(), any::<u16>()).prop_map(|(file, bit)| Damage::Flip { file, bit }),
+        2 => any::<u16>().prop_map(|bit| Damage::FlipLast { bit }),
+        1 => any::<u16>().prop_map(|len| Damage::CutLast { len }),
+    ];
+    (prop_oneof![1 => Just(64u64), 2 => 64u64..400, 1 => Just(1u64 << 20)], proptest::collection::vec(step, 2..=max_steps), damage)
+        .prop_map(|(max_log_size, steps, damage)| MultiCase { max_log_size, steps, damage })
+}
+
+/// Data-record texts and commit markers of a log image, in order (`None` = commit marker).
+fn stream_of(bytes: &[u8]) -> Vec<Option<String>> {
+    parse_log(bytes)
+        .into_iter()
+        .filter_map(|(_, _, r)| match &r {
+            grafeo_adapters::storage::wal::WalRecord::TxCommit { .. } => Some(None),
+            other => record_text(other).map(Some),
+        })
+        .collect()
+}
+
+/// The data records in front of the last commit marker of a stream.
+fn committed_of(stream: &[Option<String>]) -> Vec<String> {
+    let last = stream.iter().rposition(Option::is_none).unwrap_or(0);
+    stream[..last].iter().flatten().cloned().collect()
+}
+
+pub fn check_multi_case(c: &MultiCase, pool: &WorkerPool, ctr: &Counters) -> CaseResult {
+    use grafeo_adapters::storage::wal::{DurabilityMode as WD, WalConfig, WalManager, WalRecord};
+    let dir = scratch_dir();
+    let wdir = dir.path().join("wal");
+    let cfg = WalConfig { durability: WD::NoSync, max_log_size: c.max_log_size, ..WalConfig::default() };
+    let wal = match guard("WalManager::with_config", || WalManager::with_config(&wdir, cfg))? {
+        Ok(w) => w,
+        Err(e) => return fail("c06/wal/open-error", format!("{e}")),
+    };
+    let tx = grafeo_common::types::TxId::new(1);
+    let mut steps = c.steps.clone();
+    steps.push(MStep::Commit);
+    for st in &steps {
+        let rec = match st {
+            MStep::Log(r) => to_record(r),
+            MStep::Commit => WalRecord::TxCommit { tx_id: tx },
+        };
+        if let Err(e) = guard("log", || wal.log(&rec))? {
+            return fail("c06/wal/log-error", format!("{e}"));
+        }
+    }
+    if let Err(e) = guard("sync", || wal.sync())? {
+        return fail("c06/wal/sync-error", format!("{e}"));
+    }
+    guard("drop", move || drop(wal))?;
+    // read the files (no checkpoint was taken: recovery replays every file)
+    let mut files: Vec<(String, Vec<u8>)> = read_wal_dir(&wdir).into_iter().filter(|(n, _)| n.ends_with(".log")).collect();
+    files.sort();
+    let nfiles = files.len();
+    let intact: Vec<Vec<Option<String>>> = files.iter().map(|(_, b)| stream_of(b)).collect();
+    let all: Vec<Option<String>> = intact.iter().flatten().cloned().collect();
+    let expected = committed_of(&all);
+    // apply the damage
+    let (f, what) = match c.damage {
+        Damage::Flip { file, bit } => {
+            // prefer a non-last, non-empty file
+            let cands: Vec<usize> = (0..nfiles).filter(|i| !files[*i].1.is_empty()).collect();
+            if cands.is_empty() {
+                return ok(false, "skipped/empty-log", hash_dbg(c));
+            }
+            let f = cands[crate::driver::pick(file, cands.len())];
+            let bits = files[f].1.len() * 8;
+            let b = crate::driver::pick(bit, bits);
+            files[f].1[b / 8] ^= 1 << (b % 8);
+            (f, format!("bit {b} of {} flipped", files[f].0))
+        }
+        Damage::FlipLast { bit } => {
+            let Some(f) = (0..nfiles).rev().find(|i| !files[*i].1.is_empty()) else {
+                return ok(false, "skipped/empty-log", hash_dbg(c));
+            };
+            let bits = files[f].1.len() * 8;
+            let b = crate::driver::pick(bit, bits);
+            files[f].1[b / 8] ^= 1 << (b % 8);
+            (f, format!("bit {b} of {} flipped", files[f].0))
+        }
+        Damage::CutLast { len } => {
+            let f = nfiles - 1;
+            let l = crate::driver::pick(len, files[f].1.len() + 1);
+            files[f].1.truncate(l);
+            (f, format!("{} cut to {l} bytes", files[f].0))
+        }
+    };
+    std::fs::write(wdir.join(&files[f].0), &files[f].1).map_err(|e| Failure { signature: "c06/harness".into(), what: e.to_string() })?;
+    let req = Req { dir: wdir.to_string_lossy().to_string(), mode: Mode::NoSync, cont: None, recover_only: true };
+    let rep = call_worker(pool, &req, ctr)?;
+    ctr.images.fetch_add(1, Ordering::Relaxed);
+    if let Some((sig, w)) = rep.err {
+        return fail(sig, format!("[{what}] {w}"));
+    }
+    let got = rep.records.unwrap_or_default();
+    // what must survive: everything committed in front of the damage
+    let damaged = stream_of(&files[f].1);
+    let before: Vec<Option<String>> = intact[..f].iter().flatten().cloned().chain(damaged.iter().cloned()).collect();
+    let must = committed_of(&before);
+    let is_prefix = got.len() <= expected.len() && got[..] == expected[..got.len()];
+    if is_prefix && got.len() >= must.len() {
+        let class = if nfiles == 1 {
+            "single-file"
+        } else if f + 1 == nfiles {
+            "multi-file/damage-in-last"
+        } else {
+            "multi-file/damage-in-earlier"
+        };
+        return ok(nfiles > 1 || !matches!(c.damage, Damage::CutLast { .. }), class, hash_dbg(c));
+    }
+    // Known defect: a corrupt record ends the reading of *that file only*; the following files are still
+    // replayed, and their commit markers commit the pending records read so far. Predicted answer:
+    let skipping: Vec<Option<String>> = before.iter().cloned().chain(intact[f + 1..].iter().flatten().cloned()).collect();
+    let predicted = committed_of(&skipping);
+    if f + 1 < nfiles && got == predicted && !is_prefix {
+        return fail(
+            "c06/wal/records-behind-a-corrupt-file-replayed",
+            format!(
+                "[{what}; {nfiles} log files] recovery returned {} records that are not a prefix of the {} logged ones: the rest of \
+                 the damaged file is dropped but the later files are replayed on top",
+                got.len(),
+                expected.len()
+            ),
+        );
+    }
+    if !is_prefix {
+        return fail("c06/wal/not-a-prefix", format!("[{what}; {nfiles} files] got {} records, logged {}: {:?} vs {:?}", got.len(), expected.len(), got.iter().take(6).collect::<Vec<_>>(), expected.iter().take(6).collect::<Vec<_>>()));
+    }
+    fail("c06/wal/committed-records-lost", format!("[{what}; {nfiles} files] got {} records, {} were committed in front of the damage", got.len(), must.len()))
+}
+
 pub fn run(r: &mut Run) {
     r.level = "fault_enumeration";
     r.rule = "per generated history (0-2 closed sessions, then a session that crashes after its last op; direct-API ops of C05 incl. \
@@ -634,7 +818,7 @@ pub fn run(r: &mut Run) {
               length of the log from its length at the last open to its end (exhaustive up to 1.5 KiB quick / 4 KiB thorough, \
               strided beyond, record boundaries always), checkpoint steps with old metadata and absent/empty/partial/full \
               checkpoint.meta.tmp, a freshly rotated empty file, single-bit \
-              flips over the whole log (every record's length and checksum field + a stride; exhaustive in thorough up to 4 KiB), \
+              flips over the whole log (one bit in every record's length and checksum field + a stride of ~160 positions quick / 4096 thorough, i.e. exhaustive for logs up to 512 bytes in thorough), \
               and the continuation (reopen, write, close, reopen) on a strided subset (behind the rotated-empty image only for a quarter of the cases: known finding). Non-trivial history = at least one cut \
               strictly inside a record or a checkpoint/rotation mix was evaluated. Distinct by hash of the case."
         .into();
@@ -642,7 +826,7 @@ pub fn run(r: &mut Run) {
     r.assumptions.push("a crash is modelled by file contents only: append-only log prefixes, atomically renamed checkpoint.meta; directory-entry reordering is not modelled".into());
     r.assumptions.push("bit flips: lower bound is the last commit marker intact in front of the damage (media corruption is not covered by the sync guarantee)".into());
     r.assumptions.push("statements are excluded (they are not logged at all: C05 finding)".into());
-    r.assumptions.push("the database level never rotates below 64 MiB; multi-file crash images are covered only by the 'freshly rotated empty file' image".into());
+    r.assumptions.push("the database level never rotates below 64 MiB; multi-file logs are covered by the 'freshly rotated empty file' image and by wal_multi_file (WalManager level: records + commit markers over files of 64..400 bytes, one bit flipped in any file or the last file cut; oracle: recovered records are a prefix of the logged ones and contain everything committed in front of the damage)".into());
 
     let thorough = r.is_thorough();
     let pool = WorkerPool::new("c06", 16 * 1024 * 1024 * 1024);
@@ -655,8 +839,12 @@ pub fn run(r: &mut Run) {
         retries: AtomicU64::new(0),
     };
     let (max_ops, max_cont) = if thorough { (24, 8) } else { (10, 4) };
-    r.subcheck("crash_images", r.cases(64, 2000), move || crash_case_strategy(max_ops, max_cont), |c: &CrashCase| {
+    r.subcheck("crash_images", r.cases(64, 800), move || crash_case_strategy(max_ops, max_cont), |c: &CrashCase| {
         check_crash_case(c, &pool, &ctr, thorough)
+    });
+    let max_steps = if thorough { 60 } else { 24 };
+    r.subcheck("wal_multi_file", r.cases(1500, 60_000), move || multi_case_strategy(max_steps), |c: &MultiCase| {
+        check_multi_case(c, &pool, &ctr)
     });
     r.note(format!(
         "crash images opened in worker processes: {} (cut strictly inside a record: {}, bit flips: {}, checkpoint/rotation mixes: {}, with continuation: {}, deadline retries: {})",
